@@ -37,12 +37,8 @@ Definition ends1 (s : list N) (c : N) := starts1 (rev s) c.
 Definition NULL_S : list N := [110;117;108;108].
 Definition TRUE_S : list N := [116;114;117;101].
 Definition FALSE_S : list N := [102;97;108;115;101].
-Definition property_parse (raw : list N) : jres (list N * jty * jval) :=
-  match split_once (trim raw) [58] with
-  | None => JErr
-  | Some (k0, v0) =>
-    let k := trim k0 in let v := trim v0 in
-    let name := remove_byte QUOTE k in
+(* what a trimmed value text is taken for, once key and value are separated *)
+Definition property_value (name v : list N) : jres (list N * jty * jval) :=
     let is_null := beqs v NULL_S in
     let is_string := starts1 v QUOTE && ends1 v QUOTE in
     let is_array := starts1 v 91 && ends1 v 93 in
@@ -65,7 +61,11 @@ Definition property_parse (raw : list N) : jres (list N * jty * jval) :=
       let r5 := if is_object then Some (TObject, VObj v) else r4 in
       let r6 := if is_bool then Some (TBool, VBool (beqs v TRUE_S)) else r5 in
       match r6 with Some (t, x) => JOk (name, t, x) | None => JOk ([], TString, VNull) end
-    end
+    end.
+Definition property_parse (raw : list N) : jres (list N * jty * jval) :=
+  match split_once (trim raw) [58] with
+  | None => JErr
+  | Some (k0, v0) => property_value (remove_byte QUOTE (trim k0)) (trim v0)
   end.
 
 (* "read till comma" tail shared by string / null / true / false / array / object values:
@@ -93,15 +93,17 @@ Fixpoint read_string (s : list N) (last : N) (acc : list N) : jres (list N * lis
   end.
 Fixpoint read_exact_n (n : nat) (s : list N) : option (list N * list N) :=
   match n with O => Some ([], s) | S k => match s with [] => None | c :: r => match read_exact_n k r with Some (a, b') => Some (c :: a, b') | None => None end end end.
-(* balanced reader for '[' ... ']' / '{' ... '}' (ignores strings) *)
-Fixpoint read_balanced (op cl : N) (s : list N) (opened closed : nat) (acc : list N) : jres (list N * list N) :=
+(* balanced reader for '[' ... ']' / '{' ... '}'; a quotation mark toggles "inside a string", where brackets are text (fix) *)
+Fixpoint read_balanced_s (op cl : N) (s : list N) (opened closed : nat) (ins : bool) (acc : list N) : jres (list N * list N) :=
   match s with
   | [] => JErr
   | c :: r => if N.leb 128 c then JErr else
-    let o := if N.eqb c op then S opened else opened in
-    let k := if N.eqb c cl then S closed else closed in
-    if Nat.eqb o k then JOk (acc ++ [c], r) else read_balanced op cl r o k (acc ++ [c])
+    let ins' := if N.eqb c QUOTE then negb ins else ins in
+    let o := if N.eqb c op && negb ins' then S opened else opened in
+    let k := if N.eqb c cl && negb ins' then S closed else closed in
+    if Nat.eqb o k then JOk (acc ++ [c], r) else read_balanced_s op cl r o k ins' (acc ++ [c])
   end.
+Definition read_balanced (op cl : N) (s : list N) (opened closed : nat) (acc : list N) := read_balanced_s op cl s opened closed false acc.
 (* number: digits . e - appended; CR LF space skipped; '}' ends without comma; ',' ends with comma; else error *)
 Fixpoint read_number (s : list N) (acc : list N) : jres (list N * list N * bool) :=
   match s with
@@ -113,28 +115,24 @@ Fixpoint read_number (s : list N) (acc : list N) : jres (list N * list N * bool)
     if N.eqb c 44 then JOk (acc, r, true) else JErr
   end.
 
-Fixpoint props_loop (fuel : nat) (rest : list N) (acc : list (list N * jty * jval)) : jres (list (list N * jty * jval)) :=
-  match fuel with O => JErr | S f =>
+(* one key: the text up to and including ':', the first significant byte of the value, and what follows it *)
+Inductive keyres := KOk (kv1 : list N) (v : N) (r4 : list N) | KEmpty | KErr.
+Definition read_key (first : bool) (rest : list N) : keyres :=
   (* opening quote of the key, preceded only by whitespace / control characters *)
   let (b1, r1) := read_until QUOTE rest in
-  if negb (utf8_valid b1) then JErr else
-  if negb (beqs (filter_ascii_control b1) [QUOTE]) then JErr else
+  if negb (utf8_valid b1) then KErr else
+  if first && beqs (filter_ascii_control b1) [125] then KEmpty else      (* an object without properties (fix) *)
+  if negb (beqs (filter_ascii_control b1) [QUOTE]) then KErr else
   let (b2, r2) := read_until QUOTE r1 in
-  if negb (utf8_valid b2) then JErr else
-  let kv0 := b1 ++ b2 in
+  if negb (utf8_valid b2) then KErr else
   (* the ':' delimiter *)
-  match skip_ws r2 with JErr => JErr | JOk (c, r3) =>
-  if negb (N.eqb c 58) then JErr else
-  let kv1 := kv0 ++ [58] in
-  match skip_ws r3 with JErr => JErr | JOk (v, r4) =>
-  (* dispatch on the first significant byte of the value *)
-  let fin (kv : list N) (rest' : list N) (finished : bool) :=
-    match property_parse kv with
-    | JErr => JErr
-    | JOk p => if finished then JOk (acc ++ [p]) else props_loop f rest' (acc ++ [p])
-    end in
+  match skip_ws r2 with JErr => KErr | JOk (c, r3) =>
+  if negb (N.eqb c 58) then KErr else
+  match skip_ws r3 with JErr => KErr | JOk (v, r4) => KOk ((b1 ++ b2) ++ [58]) v r4 end end.
+(* one value, dispatched on its first significant byte: the key-value text for JSONProperty::parse, the rest, and whether the input is used up *)
+Definition read_value (kv1 : list N) (v : N) (r4 : list N) : jres (list N * list N * bool) :=
   let with_tail (kv : list N) (rest' : list N) :=
-    match tail_till_comma rest' with JErr => JErr | JOk (r', done) => fin kv r' done end in
+    match tail_till_comma rest' with JErr => JErr | JOk (r', done) => JOk (kv, r', done) end in
   if N.eqb v QUOTE then
     match read_string r4 QUOTE [] with JErr => JErr | JOk (s, r5) => with_tail (kv1 ++ [QUOTE] ++ s) r5 end
   else if N.eqb v 110 then
@@ -147,15 +145,30 @@ Fixpoint props_loop (fuel : nat) (rest : list N) (acc : list (list N * jty * jva
     match read_balanced 91 93 r4 1 0 [] with JErr => JErr | JOk (s, r5) => with_tail (kv1 ++ [91] ++ s) r5 end
   else if N.eqb v 123 then
     match read_balanced 123 125 r4 1 0 [] with JErr => JErr | JOk (s, r5) => with_tail (kv1 ++ [123] ++ s) r5 end
-  else if is_ascii_digit v then
+  else if is_ascii_digit v || N.eqb v 45 then      (* '-' since the sign fix *)
     match read_number r4 [v] with
     | JErr => JErr
     | JOk (num, r5, comma) =>
-      if comma then fin (kv1 ++ num) r5 false
-      else let (_, r6) := read_until 44 r5 in fin (kv1 ++ num) r6 (match r6 with [] => true | _ => false end)
+      if comma then JOk (kv1 ++ num, r5, false)
+      else let (_, r6) := read_until 44 r5 in JOk (kv1 ++ num, r6, match r6 with [] => true | _ => false end)
     end
-  else JErr
-  end end end.
+  else JErr.
+
+Fixpoint props_loop (fuel : nat) (rest : list N) (acc : list (list N * jty * jval)) : jres (list (list N * jty * jval)) :=
+  match fuel with O => JErr | S f =>
+  match read_key (match acc with [] => true | _ => false end) rest with
+  | KErr => JErr
+  | KEmpty => JOk []
+  | KOk kv1 v r4 =>
+    match read_value kv1 v r4 with
+    | JErr => JErr
+    | JOk (kv, rest', finished) =>
+      match property_parse kv with
+      | JErr => JErr
+      | JOk p => if finished then JOk (acc ++ [p]) else props_loop f rest' (acc ++ [p])
+      end
+    end
+  end end.
 
 Definition parse_as_properties (json : list N) : jres (list (list N * jty * jval)) :=
   let (b0, r0) := read_until 123 json in
